@@ -75,7 +75,8 @@ def edge_census(sp, idmap, opts):
             continue
         table, idx = idmap[o["id"]]
         kw = TABLE_KW[table]
-        if not opts.get("include_" + kw, True):
+        inc = opts.get("include_" + kw, True)
+        if inc is False or (isinstance(inc, list) and idx not in inc):
             continue
         a, b = supply.ends(o)
         if b is None:
@@ -139,6 +140,9 @@ def option_sets(tier, nflags_off):
     out = list(base)
     for n in names:
         out.append({n: False})
+    # explicit index lists for include_pipes: each single pipe left out (resolved against the net at run time)
+    for leave in range(6):
+        out.append({"include_pipes": ("all_but", leave)})
     for a, b in itertools.combinations(names, 2):
         if tier == "thorough" or (a.startswith("respect") != b.startswith("respect")):
             out.append({a: False, b: False})
@@ -195,7 +199,12 @@ def run_pattern(sp0, flags, k, number, opts_pf, tier):
                            cause=cause, **tag))
     # (2)-(5) graph structure under option sets
     nflags_off = len(off)
+    pipe_labels = [idmap[o["id"]][1] for o in sp["ops"] if o["op"] == "pipe"]
     for gopts in option_sets(tier, nflags_off):
+        if isinstance(gopts.get("include_pipes"), tuple):
+            if gopts["include_pipes"][1] >= len(pipe_labels):
+                continue
+            gopts = dict(gopts, include_pipes=[x for i, x in enumerate(pipe_labels) if i != gopts["include_pipes"][1]])
         for multi in (True, False):
             try:
                 g = top.create_nxgraph(net, multi=multi, **gopts)
